@@ -463,6 +463,15 @@ func (env *Env) evalCall(x *ECall) Term {
 		oe.vars = merged
 		oe.err = env.err
 		return oe.Eval(x.Args[0])
+	case "cur":
+		// cur(p): the current value of a parameter the function assigns to (a bare parameter name
+		// denotes its entry value)
+		if id, ok := x.Args[0].(*EIdent); ok && env.cells != nil {
+			if t, ok := env.cells(id.Name); ok {
+				return t
+			}
+		}
+		return env.Eval(x.Args[0])
 	case "prev":
 		// prev(e): e at the head of the current loop iteration (inv-pres) / of the last loop entered
 		// on this path (ensures); where there is none, the current state
